@@ -649,7 +649,7 @@ impl Domain for D {
     fn gen(&self, tier: &str, seed: u64, w: &mut dyn Write) {
         let thorough = tier == "thorough";
         let mut rng = Rng::new(seed ^ 0x736d6772);
-        let sessions = if thorough { 1500 } else { 120 };
+        let sessions = if thorough { 800 } else { 120 };
         for s in 0..sessions {
             let steps = if s % 10 == 9 { 170 } else { rng.range(5, 40) as usize };
             gen_session(&mut rng, w, steps, s as u64, false);
